@@ -114,7 +114,12 @@ func conforms(sn schema.Node, n datanode.DataNode, path string) string {
 			if len(k.YangDataValues()) != 0 {
 				return p + ": a list with values"
 			}
+			entries := map[string]bool{}
 			for _, e := range k.YangDataChildren() {
+				if entries[e.YangDataName()] {
+					return p + "/" + e.YangDataName() + ": two entries of one key"
+				}
+				entries[e.YangDataName()] = true
 				esn := t.Child(e.YangDataName())
 				var keyVal *string
 				for _, ek := range e.YangDataChildren() {
@@ -238,7 +243,35 @@ func mutateEnc(r *Rng, s string) string {
 	if len(s) == 0 {
 		return s
 	}
-	switch r.Intn(11) {
+	switch r.Intn(13) {
+	case 11: // an entry of a JSON list once more: the first object of an array
+		if i := strings.Index(s, "[{"); i >= 0 {
+			depth, j := 0, i+1
+			for ; j < len(s); j++ {
+				if s[j] == '{' {
+					depth++
+				} else if s[j] == '}' {
+					depth--
+					if depth == 0 {
+						break
+					}
+				}
+			}
+			if j < len(s) {
+				return s[:j+1] + "," + s[i+1:j+1] + s[j+1:]
+			}
+		}
+		return s
+	case 12: // an XML element with children (a list entry, a container) once more, next to itself
+		if m := xmlOpenRe.FindAllStringSubmatchIndex(s, -1); len(m) > 0 {
+			e := m[r.Intn(len(m))]
+			name := s[e[2]:e[3]]
+			if j := strings.Index(s[e[1]:], "</"+name+">"); j >= 0 {
+				end := e[1] + j + len(name) + 3
+				return s[:end] + s[e[0]:end] + s[end:]
+			}
+		}
+		return s
 	case 9: // a whole XML element once more (as it is, or with another text), next to itself or at the end of its parent
 		if m := xmlLeafRe.FindAllStringIndex(s, -1); len(m) > 0 {
 			e := m[r.Intn(len(m))]
@@ -310,6 +343,7 @@ func mutateEnc(r *Rng, s string) string {
 	}
 }
 
+var xmlOpenRe = regexp.MustCompile(`<([A-Za-z_][A-Za-z0-9_.-]*)( [^<>]*)?><`)
 var xmlLeafRe = regexp.MustCompile(`<([A-Za-z_][A-Za-z0-9_.-]*)( [^<>]*)?>[^<>]*</[A-Za-z_][A-Za-z0-9_.-]*>`)
 var jsonMemberRe = regexp.MustCompile(`"([A-Za-z_][A-Za-z0-9_.:-]*)":("[^"]*"|[0-9.eE+-]+|true|false|null|\[null\])`)
 
